@@ -15,6 +15,9 @@ SLOTS = ("t0", "t1", "p0", "p1", "m0", "m1")
 
 
 def run(repo, run, tier):
+    from .common import readonly
+    readonly(repo, run, "C17.6", "desolver/utilities/interpolation.py", ["CubicHermiteInterp.__call__", "CubicHermiteInterp.grad"], "the evaluation methods of a Hermite piece")
+    readonly(repo, run, "C17.7", "desolver/utilities/utilities.py", ["search_bisection", "search_bisection_vec"], "the bisection searches")
     run.trusted += ["a cubic is determined by its values and first derivatives at two points (Hermite interpolation)",
                     "comparison-only programs depend on their numeric inputs only through the order type (data independence)",
                     "python ast, fractions; the analyser in /verif/sa"]
